@@ -174,7 +174,8 @@ pub fn run(cfg: &Cfg) -> i32 {
     rep.assumptions.push("the control run (same program, same seed, no save) is the reference; defects that affect it identically are out of scope (C01)".into());
     let nprog = cfg.get_u64("programs", cfg.pick(60, 8000));
     let nhist = cfg.pick(3, 6);
-    let gc = GenCfg::rich();
+    let mut gc = GenCfg::rich();
+    gc.floats = true;
     let mut stories: Vec<Compiled> = Vec::new();
     let corpus = corpus_stories(&cfg.corpus_dir(), true, !cfg.quick(), 3000);
     let ncorpus = cfg.pick(25, corpus.len());
